@@ -672,7 +672,7 @@ class Alignments(Wordlist):
                     tmp = [x for x in value if x != 0]
                     seqids = []
                     for t in tmp:
-                        seqids += t
+                        seqids += sorted(t)
                     if len(seqids) > 1:
                         # set up the dictionary
                         d = {'ID': [], 'taxa': [], 'seqs': [], 'alignment': []}
